@@ -426,7 +426,9 @@ func (f *instance) Encode(gid glyph.ID, text string) (charcode.Code, bool) {
 
 	// Allocate new code
 	glyphName := f.Font.Glyphs[gid].Name
-	width := math.Round(f.rawWidths[gid])
+	// The width is in Type 3 glyph space, whose scale is set by FontMatrix: it
+	// must not be rounded to whole units (a /Widths array may hold reals).
+	width := f.rawWidths[gid]
 
 	c, err := f.Simple.Encode(gid, glyphName, text, width)
 	return charcode.Code(c), err == nil
